@@ -1,2 +1,68 @@
-(* placeholder — theorems are added below as they are proved *)
-From Mokaverif Require Import Model.Base Model.Brew.
+(* C02 — cross-validation integrity.  Statements only; proofs in Proofs/BrewP.v.
+   fold_index folds r f : row r belongs to fold f;  rows_of_fold fo f : rows routed to model f, file order;
+   fold_scores : the (calibrated) scores of one fold, computed from fold model f's raw scores of
+   exactly the rows of fold f. *)
+From Coq Require Import Permutation.
+From Mokaverif Require Import Model.Base Model.Tdc Model.Calibrate Model.Brew Proofs.BrewP.
+Open Scope nat_scope.
+
+(* exactly k folds, a partition of the PSMs, all PSMs of one spectrum in the same fold *)
+Theorem C02_split_partition : forall keys k folds, bw_split keys k = Ok folds ->
+  length folds = k /\
+  Permutation (concat folds) (seq 0 (length keys)) /\
+  (forall i j f g, fold_index folds i f -> fold_index folds j g ->
+     nth i keys 0%Z = nth j keys 0%Z -> f = g).
+Proof. exact split_partition. Qed.
+Print Assumptions C02_split_partition.
+
+(* the model index attached to every row is the fold that contains the row *)
+Theorem C02_row_to_model : forall keys k folds, bw_split keys k = Ok folds ->
+  length (bw_fold_of folds (length keys)) = length keys /\
+  forall r, r < length keys ->
+    exists f, f < k /\ fold_index folds r f /\ nth r (bw_fold_of folds (length keys)) 0 = f.
+Proof. exact brew_fold_of_ok. Qed.
+Print Assumptions C02_row_to_model.
+
+(* training rows of fold f — the whole complement or any sub-sample of it (training-size cap) —
+   contain neither a held-out PSM nor any PSM sharing a spectrum with a held-out PSM *)
+Theorem C02_train_disjoint : forall keys k folds f chosen r,
+  bw_split keys k = Ok folds -> incl chosen (bw_complement (length keys) (nth f folds [])) ->
+  In r chosen ->
+  ~ In r (nth f folds []) /\
+  forall r', In r' (nth f folds []) -> nth r keys 0%Z <> nth r' keys 0%Z.
+Proof. exact train_disjoint. Qed.
+Print Assumptions C02_train_disjoint.
+
+(* the final score of row r is produced by the model of r's fold from the raw scores that model
+   gives to the rows of that fold only, at r's own position — for every chunk size *)
+Theorem C02_routing : forall do_cal k thr fold_of targets raw,
+  length targets = length fold_of ->
+  (forall r, r < length fold_of -> nth r fold_of 0 < k) ->
+  forall c out, 1 <= c ->
+  bw_predict do_cal c k thr fold_of targets raw = Ok out ->
+  length out = length fold_of /\
+  forall r, r < length fold_of ->
+    let f := nth r fold_of 0 in
+    exists ys, fold_scores do_cal thr targets raw f (rows_of_fold fold_of f) = Ok ys /\
+               length ys = length (rows_of_fold fold_of f) /\
+               In r (rows_of_fold fold_of f) /\
+               nth r out 0%Q = nth (index_of r (rows_of_fold fold_of f)) ys 0%Q.
+Proof. exact predict_spec. Qed.
+Print Assumptions C02_routing.
+
+(* prediction does not depend on the chunk size, including chunks without a row of some fold *)
+Theorem C02_predict_chunk_free : forall do_cal k thr fold_of targets raw,
+  length targets = length fold_of -> forall c c', 1 <= c -> 1 <= c' ->
+  bw_predict do_cal c k thr fold_of targets raw = bw_predict do_cal c' k thr fold_of targets raw.
+Proof. exact predict_chunk_independent. Qed.
+Print Assumptions C02_predict_chunk_free.
+
+(* non-vacuity: 7 PSMs in 4 spectra, 3 folds; one spectrum straddles a nominal split point *)
+Example C02_example :
+  bw_split [5;3;5;9;3;5;1]%Z 3 = Ok [[6;1;4]; [0;2;5]; [3]] /\
+  bw_fold_of [[6;1;4]; [0;2;5]; [3]] 7 = [1;0;1;2;0;1;0] /\
+  bw_train_sets [[6;1;4]; [0;2;5]; [3]] 7 = [[0;2;3;5]; [1;3;4;6]; [0;1;2;4;5;6]] /\
+  bw_split [5;5;5;5]%Z 3 = Err EIndex /\
+  bw_subset_plan (Some 10) [20;4] = Err EValue /\
+  bw_subset_plan (Some 10) [20;20] = Ok [Some 5; Some 5].
+Proof. vm_compute. repeat split. Qed.
